@@ -210,7 +210,7 @@ def finish(ctx):
     ctx.assumptions = [
         "SM3/SHA Spec = my transcription of GB/T 32905 / FIPS 180-4, pinned by the standards' vectors proved as Examples (vm_compute)",
         "sha384/sha512 streaming theorem carries the premise < 2^64 blocks (the C block counter is 64 bits)",
-        "every Impl=Spec equality the driver relies on is a theorem of Props/Properties_C03.v, except HMAC over SHA-384/512 (generic hmac.c instance; run-time compared by the driver: MODEL-IMPL-SPEC-DIFFER would be reported)",
+        "every Impl=Spec equality the driver relies on is a theorem of Props/Properties_C03.v (HMAC over the 128-byte-block digests: C03_hmac_generic_stream_wide, below 2^64 blocks); the driver still compares Impl and Spec at run time (MODEL-IMPL-SPEC-DIFFER would be reported)",
         "ENABLE_SM3_SSE (x86 SSSE3) is run as variant `sse`; ARM / AVX SM3 variants are not built here",
     ]
     return ctx.finish(level="proof",
